@@ -12,6 +12,7 @@ overrides, and collection trees up to depth 3 (subtree copied, links consistent 
 """
 import itertools
 import json
+import re
 
 import numpy as np
 
@@ -56,7 +57,8 @@ def state(o):
             d[a] = None if v is None else (np.asarray(v).tolist() if not isinstance(v, str) else v)
     st = o.style.as_dict()
     st.pop("label", None)
-    d["style"] = json.dumps(st, sort_keys=True, default=str)
+    # function reprs carry an address (Trace3d.updatefunc's default closure): not part of the value
+    d["style"] = re.sub(r" at 0x[0-9a-f]+", "", json.dumps(st, sort_keys=True, default=str))
     if hasattr(o, "_children"):
         d["children"] = [state(c) for c in o._children]
     return d
@@ -204,7 +206,7 @@ def run_all(seed, tier):
     rng = np.random.default_rng(seed)
     bad, n, distinct = [], 0, set()
     mk = classes()
-    style_modes = ("untouched", "kwargs-pending", "initialised", "label", "model3d-trace")
+    style_modes = ("untouched", "kwargs-pending", "initialised", "label", "model3d-trace", "kwargs-pending-model3d")
     kw_sets = ({}, {"position": (7, 8, 9)}, {"style_color": "orange"}, {"position": [(1, 1, 1), (2, 2, 2)], "style_color": "green"})
     for cname, parent, smode, kws in itertools.product(mk, (False, True), style_modes, kw_sets):
         skw = {}
@@ -212,24 +214,37 @@ def run_all(seed, tier):
             skw = {"style_opacity": 0.5}
         elif smode == "label":
             skw = {"style_label": "thing_07"}
-        try:
-            o = mk[cname](**skw)
-        except TypeError:
-            continue
-        if smode == "initialised":
-            o.style.color = "#123456"
-        if smode == "model3d-trace":
-            o.style.model3d.add_trace(dict(backend="generic", constructor="scatter3d", kwargs=dict(x=[0, 1], y=[0, 1], z=[0, 2]), show=True, scale=2))
-        o._position = rng.normal(size=(2, 3))
+        elif smode == "kwargs-pending-model3d":
+            # mutable style input (a user trace) given at construction time, style never touched before copy()
+            skw = {"style_model3d_data": [dict(backend="generic", constructor="scatter3d", kwargs=dict(x=[0, 1], y=[0, 1], z=[0, 2]), show=True, scale=2)], "style_color": "red"}
         from scipy.spatial.transform import Rotation as R
 
-        o._orientation = R.from_rotvec(rng.normal(size=(2, 3)))
-        if cname == "Collection":
-            kids = [mk["Cuboid"](), mk["Sensor"](), magpy.Collection(mk["Dipole"](), magpy.Collection(mk["Circle"]()))]
-            o.add(*kids)
-        par = magpy.Collection(o, mk["Sphere"]()) if parent else None
-        tree_before = state(par) if par is not None else None
-        before = state(o)
+        pos, rotv = rng.normal(size=(2, 3)), rng.normal(size=(2, 3))
+
+        def build():
+            o = mk[cname](**skw)
+            if smode == "initialised":
+                o.style.color = "#123456"
+            if smode == "model3d-trace":
+                o.style.model3d.add_trace(dict(backend="generic", constructor="scatter3d", kwargs=dict(x=[0, 1], y=[0, 1], z=[0, 2]), show=True, scale=2))
+            o._position = pos.copy()
+            o._orientation = R.from_rotvec(rotv)
+            if cname == "Collection":
+                kids = [mk["Cuboid"](), mk["Sensor"](), magpy.Collection(mk["Dipole"](), magpy.Collection(mk["Circle"]()))]
+                o.add(*kids)
+            return o, (magpy.Collection(o, mk["Sphere"]()) if parent else None)
+
+        try:
+            o, par = build()
+        except TypeError:
+            continue
+        # the reference state is read off an identically built TWIN: reading the style of `o` itself would initialise a lazily
+        # un-initialised style before copy() runs, and copy() would never be exercised with pending style input
+        twin, twin_par = build()
+        tree_before = state(twin_par) if twin_par is not None else None
+        before = state(twin)
+        if smode in ("untouched", "kwargs-pending", "label", "kwargs-pending-model3d"):
+            assert getattr(o, "_style", None) is None, "harness: style initialised before copy()"
         n += 1
         distinct.add((cname, parent, smode, tuple(sorted(kws))))
         try:
@@ -256,6 +271,41 @@ def run_all(seed, tier):
             msgs += mutate_and_compare(o, cp)
         if msgs:
             bad.append((dict(cls=cname, parent=parent, style=smode, kwargs={k: (list(map(list, v)) if isinstance(v, list) else v) for k, v in kws.items()}), msgs[:4]))
+    # fault inside copy(): an attribute that copy.deepcopy cannot copy makes copy() raise part-way; the original and its tree
+    # must be exactly as before ("leaves the original tree untouched" at every exit of copy())
+    import threading
+
+    for cname in mk:
+        for where in ("attribute", "nested attribute"):
+            try:
+                o = mk[cname]()
+            except TypeError:
+                continue
+            if cname == "Collection":
+                o.add(mk["Cuboid"](), magpy.Collection(mk["Dipole"]()))
+            sib = mk["Sphere"]()
+            par = magpy.Collection(sib, o)
+            if where == "attribute":
+                o.user_lock = threading.Lock()
+            else:
+                o.user_data = {"handles": [np.zeros(3), threading.Lock()]}
+            kids_before = [id(c) for c in par._children]
+            n += 1
+            distinct.add((cname, "fault", where))
+            try:
+                o.copy()
+                continue  # deepcopy coped with it: nothing to check in this scenario
+            except Exception:  # pylint: disable=broad-except
+                pass
+            msgs = []
+            if o._parent is not par:
+                msgs.append(f"after a copy() that raised, the original's parent is {o._parent!r} (was its collection)")
+            if [id(c) for c in par._children] != kids_before or sib._parent is not par:
+                msgs.append("after a copy() that raised, the children of the original's parent changed")
+            if cname == "Collection" and any(c._parent is not o for c in o._children):
+                msgs.append("after a copy() that raised, the original's children lost their parent")
+            if msgs:
+                bad.append((dict(cls=cname, parent=True, fault=f"deepcopy raises ({where} holds a threading.Lock)"), msgs))
     return n, len(distinct), bad
 
 
@@ -279,7 +329,7 @@ def main(tier, seed):
     rep.assume("meta-argument: disjoint mutable reach implies that no later mutation of either object is visible to the other; a fixed set of mutations is exercised in addition")
     n, d, bad = run_all(seed, tier)
     rep.standin("run-time contract of copy(): equal state, no parent, disjoint mutable reach, original tree untouched, kwargs only on the copy, same field, later mutations invisible",
-                "13 classes x {no parent, parent} x 5 style states (incl. a user model3d trace) x 4 keyword sets; collection tree depth 3", n, d,
+                "13 classes x {no parent, parent} x 6 style states (incl. a user model3d trace, pending kwargs with a mutable trace input; reference state from a twin) x 4 keyword sets; collection tree depth 3; copy() raising inside deepcopy (uncopyable direct / nested attribute) for every class with a parent", n, d,
                 "every combination once; distinct = (class, parent, style state, kwargs)", [dict(cls="Collection", parent=True, style="kwargs-pending", kwargs={"position": [7, 8, 9]})],
                 failures=len(bad), exhaustive=True)
     for f in sfails:
